@@ -231,32 +231,73 @@ def mon_c19_input(case, verdict, chk):
         chk.hist["ty:" + s] = chk.hist.get("ty:" + s, 0) + 1
     for s in case.get("spelling") or []:
         chk.hist["doc:" + s] = chk.hist.get("doc:" + s, 0) + 1
-    replay = {"kind": "impl-counterexample", "case": _slim_input(case),
-              "replay_harness": ["input", "-n", str(int(case.get("id", "x-0-0").split("-")[-1]) + 1),
-                                 "-skip", case.get("id", "x-0-0").split("-")[-1], "-seed", str(chk.seed)]}
+    if case.get("replay_harness"):
+        rh = list(case["replay_harness"])
+    else:
+        idx = case.get("id", "x-0-0").split("-")[-1]
+        rh = ["input", "-n", str(int(idx) + 1), "-skip", idx, "-seed", str(chk.seed)]
+    replay = {"kind": "impl-counterexample", "case": _slim_input(case), "replay_harness": rh}
+    where = ""
+    if case.get("in_sequence"):
+        seq = case["in_sequence"]
+        chk.hist["sequence-run:" + cls.split(":")[0]] = chk.hist.get("sequence-run:" + cls.split(":")[0], 0) + 1
+        where = " [run %s of a sequence on one prepared workflow, after: %s]" % (seq.get("run"), ", ".join(seq.get("earlier_runs") or []) or "nothing")
     if case.get("panic") or not res.get("returned"):
-        chk.violation("C19:panic-or-hang", "Execute panicked or did not return for a generated input document (%s): %s"
-                      % (cls, str(case.get("panic") or case.get("dump"))[:200]), replay)
+        chk.violation("C19:panic-or-hang", "Execute panicked or did not return for a generated input document (%s): %s%s"
+                      % (cls, str(case.get("panic") or case.get("dump"))[:200], where), replay)
         return
     started = (case.get("deploys_at_return") or 0) > 0 or (case.get("deploys_settled") or 0) > 0 or bool(case.get("seen"))
+    # second and third oracle for "the declared schema rejects the document": the real pluginsdk schema on a FRESH copy of the
+    # schema (input scope of a fresh Prepare that no Execute has touched), and the Lean model's `valid` (verdict of arcadrv)
+    sdk = case.get("sdk") or {}
+    if "valid" in sdk:
+        chk.hist["sdk-oracle:" + ("valid" if sdk["valid"] else "rejects")] = chk.hist.get("sdk-oracle:" + ("valid" if sdk["valid"] else "rejects"), 0) + 1
+    # (a disagreement of the Lean model with the real run is reported by the correspondence; it is named in the text below)
+    model_refuses = isinstance((verdict or {}).get("detail"), dict) and (verdict["detail"].get("why") == "model: refused, real: accepted")
+    if valid != sdk.get("valid", valid):
+        note = "C19 monitor: the generator calls a document %s, the real schema on a fresh copy says %s (%s): %s" % (
+            "valid" if valid else "invalid", "valid" if sdk.get("valid") else "invalid: " + str(sdk.get("err"))[:120], cls, case.get("id"))
+        if len([n for n in chk.notes if n.startswith("C19 monitor: the generator calls")]) < 5:
+            chk.notes.append(note)
+    if not valid and sdk.get("valid") is True:
+        # the generator built the document as invalid, the real schema on a fresh copy accepts it: the oracles disagree (noted
+        # above), so nothing is claimed about this document
+        chk.hist["oracles-disagree"] = chk.hist.get("oracles-disagree", 0) + 1
+        return
+    if valid and sdk.get("valid") is False:
+        who = "the real schema (fresh copy: %s)%s" % (str(sdk.get("err"))[:160], " and the Lean model of the schema" if model_refuses else "")
+        if res.get("output_id") or res.get("err_class") != "invalidInput":
+            chk.violation("C19:invalid-input-accepted",
+                          "a document that %s rejects was not refused as invalid input: output %r, error class %r%s"
+                          % (who, res.get("output_id"), res.get("err_class"), where), replay)
+        if started:
+            chk.violation("C19:invalid-input-started-steps",
+                          "a document that %s rejects led to %s deployment(s) (%s when Execute returned)%s"
+                          % (who, case.get("deploys_settled"), case.get("deploys_at_return"), where), replay)
+        return
     if not valid:
         if res.get("output_id") or res.get("err_class") != "invalidInput":
             chk.violation("C19:invalid-input-accepted",
                           "a document that violates the input schema (%s at %s) was not refused as invalid input: output %r, error class %r"
-                          % (case.get("violation_kind"), case.get("violation_path"), res.get("output_id"), res.get("err_class")), replay)
+                          % (case.get("violation_kind"), case.get("violation_path"), res.get("output_id"), res.get("err_class")) + where, replay)
         if started:
             chk.violation("C19:invalid-input-started-steps",
                           "a document that violates the input schema (%s at %s) led to %s deployment(s) (%s when Execute returned)"
                           % (case.get("violation_kind"), case.get("violation_path"), case.get("deploys_settled"),
-                             case.get("deploys_at_return")), replay)
+                             case.get("deploys_at_return")) + where, replay)
         return
     if res.get("err_class") == "invalidInput":
-        chk.violation("C19:valid-input-rejected", "a document that satisfies the input schema was refused: %s" % str(res.get("err"))[:300], replay)
+        chk.violation("C19:valid-input-rejected", "a document that satisfies the input schema was refused: %s%s" % (str(res.get("err"))[:300], where), replay)
         return
     if res.get("output_id") != "success":
-        chk.violation("C19:valid-input-rejected", "a valid document did not lead to the success output: output %r, error class %r (%s)"
-                      % (res.get("output_id"), res.get("err_class"), str(res.get("err"))[:200]), replay)
+        chk.violation("C19:valid-input-rejected", "a valid document did not lead to the success output: output %r, error class %r (%s)%s"
+                      % (res.get("output_id"), res.get("err_class"), str(res.get("err"))[:200], where), replay)
         return
+    if "norm" in sdk:
+        got0, ok0 = navigate(res.get("data"), ["input"]) if is_map(res.get("data")) else (None, False)
+        if not ok0 or canon(got0) != canon(sdk["norm"]):
+            chk.violation("C19:not-normalised", "the `$.input` seen by the workflow output is not what the real schema (fresh copy) makes of the "
+                          "document: got %s, Serialize(Unserialize(doc)) = %s%s" % (str(got0)[:200], str(sdk["norm"])[:200], where), replay)
     try:
         norm = py_normalise(case["ty"], case["doc"])
     except Unmodelled:
@@ -292,6 +333,229 @@ def mon_c19_input(case, verdict, chk):
             by_ref.setdefault(k, (v, st.get("id")))
 
 
+# ---- sequences on one prepared workflow (stream `inputseq`) ---------------------------------------------------------------------
+
+def _doc_rejected(d):
+    """the declared schema rejects the document: the generator built it invalid and the real schema (fresh copy) does not
+    contradict; or the real schema on a fresh copy rejects it"""
+    sdk = d.get("sdk") or {}
+    if sdk.get("valid") is False:
+        return True
+    return (not d.get("expect_valid")) and sdk.get("valid") is not True
+
+
+def _doc_accepted(d):
+    sdk = d.get("sdk") or {}
+    return bool(d.get("expect_valid")) and sdk.get("valid") is not False
+
+
+def _seq_replay(case, upto=None):
+    """the sequence as a replay: workflow text, every document with its oracles, the runs up to the offending one"""
+    runs = case.get("runs") or []
+    if upto is not None:
+        runs = [r for r in runs if r.get("n", 0) <= upto]
+    docs = [{k: d.get(k) for k in ("index", "role", "doc", "expect_valid", "violation_kind", "violation_path", "sdk", "fresh")}
+            for d in case.get("docs") or []]
+    idx = case.get("id", "inputseq-0-0").split("-")
+    rh = ["inputseq", "-n", str(int(idx[-1]) + 1), "-skip", idx[-1], "-seed", idx[1] if len(idx) > 2 else "1", "-child", "self"]
+    return {"kind": "impl-counterexample",
+            "case": {"id": case.get("id"), "workflow_yaml": case.get("yaml"), "steps": case.get("steps"), "documents": docs,
+                     "runs": runs, "hung_run": case.get("hung_run"), "goroutine_dump": str(case.get("dump") or "")[:3000],
+                     "watchdog_ms": case.get("watchdog_ms")},
+            "replay_harness": rh}
+
+
+def _describe_run(case, run):
+    docs = case.get("docs") or []
+    d = docs[run["doc"]] if run.get("doc", -1) < len(docs) else {}
+    what = d.get("role", "?")
+    if d.get("role") == "invalid":
+        what += " (%s at %s)" % (d.get("violation_kind"), d.get("violation_path"))
+    return "run %s (phase %s%s, document %s: %s%s)" % (run.get("n"), run.get("phase"), ", overlapping" if run.get("overlap") else "",
+                                                      run.get("doc"), what, ", cancelled after %s ms" % run["cancel_after_ms"] if run.get("cancel_after_ms", -1) >= 0 else "")
+
+
+def _earlier(case, run):
+    docs = case.get("docs") or []
+    out = []
+    for r in case.get("runs") or []:
+        if r.get("n", 0) >= run.get("n", 0):
+            continue
+        d = docs[r["doc"]] if r.get("doc", -1) < len(docs) else {}
+        out.append("%s%s" % ("refused" if _doc_rejected(d) else "valid", "+cancelled" if r.get("cancel_after_ms", -1) >= 0 else ""))
+    return out
+
+
+def mon_c19_seq(case, verdict, chk):
+    """C19 on a sequence of runs of ONE prepared workflow.  Every run is judged on its own document: a document the declared
+    schema rejects (generator, real schema on a fresh copy) is refused as invalid input and deploys nothing, whatever ran
+    before or runs at the same time; a valid one runs and sees the normalised input; a run that never returns has neither
+    refused nor run its input."""
+    if case.get("kind") == "input":
+        return mon_c19_input(case, verdict, chk)
+    if case.get("kind") != "inputseq":
+        return
+    if case.get("crash"):
+        if _plugin_side(case["crash"]):
+            chk.hist["child:plugin-side-crash"] = chk.hist.get("child:plugin-side-crash", 0) + 1
+        else:
+            chk.violation("C19:process-crash", "a sequence of valid / invalid / cancelled runs crashed the process: " + case["crash"][:300],
+                          {"kind": "impl-counterexample", "case": {k: case.get(k) for k in ("id", "child", "child_exit")},
+                           "stderr": case["crash"][:3000], "replay_harness": _seq_replay(case)["replay_harness"]})
+        return
+    docs = case.get("docs") or []
+    runs = case.get("runs") or []
+    nsteps = len(case.get("steps") or [])
+    chk.hist["sequence:docs-invalid"] = chk.hist.get("sequence:docs-invalid", 0) + len([d for d in docs if d.get("role") == "invalid"])
+    for d in docs:
+        if d.get("role") == "invalid":
+            k = "sequence-doc:" + str(d.get("violation_kind"))
+            chk.hist[k] = chk.hist.get(k, 0) + 1
+    if case.get("hung"):
+        hr = case.get("hung_run") or {}
+        if hr.get("phase") == "isolated-first-run":
+            chk.violation("C19:panic-or-hang", "the first Execute of a freshly prepared workflow did not return within %s ms (document %s)"
+                          % (case.get("watchdog_ms"), hr.get("doc")), _seq_replay(case))
+            return
+        before = _earlier(case, hr)
+        chk.violation("C19:run-never-returns",
+                      "%s of a sequence on one prepared workflow did not return within %s ms: its input was neither refused nor run; "
+                      "earlier runs of the prepared workflow: %s" % (_describe_run(case, hr), case.get("watchdog_ms"), ", ".join(before) or "none"),
+                      _seq_replay(case, hr.get("n")))
+    for run in runs:
+        if run.get("hung"):
+            continue
+        d = docs[run["doc"]]
+        res = run.get("result") or {}
+        cancelled = run.get("cancel_after_ms", -1) >= 0
+        tag = "sequence:%s:%s%s" % ("overlap" if run.get("overlap") else "sequential",
+                                    "refused-doc" if _doc_rejected(d) else "valid-doc", ":cancelled" if cancelled else "")
+        chk.hist[tag] = chk.hist.get(tag, 0) + 1
+        if res.get("panic"):
+            chk.violation("C19:panic-or-hang", "%s panicked: %s" % (_describe_run(case, run), str(res["panic"])[:200]), _seq_replay(case, run.get("n")))
+            continue
+        if _doc_rejected(d):
+            refused = not res.get("output_id") and (res.get("err_class") == "invalidInput" or (cancelled and res.get("err_class")))
+            if not refused:
+                chk.violation("C19:invalid-input-accepted",
+                              "%s: the document violates the input schema but was not refused as invalid input: output %r, error class %r; earlier runs: %s"
+                              % (_describe_run(case, run), res.get("output_id"), res.get("err_class"), ", ".join(_earlier(case, run)) or "none"),
+                              _seq_replay(case, run.get("n")))
+            if not run.get("overlap") and ((run.get("deploys_settled") or 0) > 0 or (run.get("deploys_at_return") or 0) > 0):
+                chk.violation("C19:invalid-input-started-steps",
+                              "%s: the document violates the input schema and %s plugin(s) were deployed" % (_describe_run(case, run), run.get("deploys_settled")),
+                              _seq_replay(case, run.get("n")))
+        elif _doc_accepted(d):
+            if res.get("err_class") == "invalidInput":
+                chk.violation("C19:valid-input-rejected", "%s: a document that satisfies the input schema was refused: %s; earlier runs: %s"
+                              % (_describe_run(case, run), str(res.get("err"))[:200], ", ".join(_earlier(case, run)) or "none"), _seq_replay(case, run.get("n")))
+                continue
+            if not cancelled and res.get("output_id") != "success":
+                chk.violation("C19:valid-input-rejected", "%s: a valid document did not lead to the success output: output %r, error class %r (%s)"
+                              % (_describe_run(case, run), res.get("output_id"), res.get("err_class"), str(res.get("err"))[:200]), _seq_replay(case, run.get("n")))
+                continue
+            if res.get("output_id") == "success":
+                norm = (d.get("sdk") or {}).get("norm")
+                got, ok = navigate(res.get("data"), ["input"]) if is_map(res.get("data")) else (None, False)
+                if norm is not None and (not ok or canon(got) != canon(norm)):
+                    chk.violation("C19:not-normalised", "%s: the `$.input` of the returned output is %s, the schema-normalised document is %s"
+                                  % (_describe_run(case, run), str(got)[:200], str(norm)[:200]), _seq_replay(case, run.get("n")))
+    # overlapping phases: a refused run deploys nothing, so the deployments of a phase are bounded by those of its valid runs
+    phases = {}
+    for run in runs:
+        if run.get("overlap") and not run.get("hung"):
+            phases.setdefault(run["phase"], []).append(run)
+    for ph, rs in phases.items():
+        may = sum(nsteps for r in rs if not _doc_rejected(docs[r["doc"]]))
+        total = max((r.get("deploys_settled") or 0) for r in rs)
+        if total > may and not case.get("hung"):
+            chk.violation("C19:invalid-input-started-steps",
+                          "overlapping phase %s: %d deployments, but only %d of the %d runs had a valid document (%d steps each): a refused run deployed plugins"
+                          % (ph, total, len([r for r in rs if not _doc_rejected(docs[r["doc"]])]), len(rs), nsteps), _seq_replay(case, max(r.get("n", 0) for r in rs)))
+
+
+def mon_c14_seq(case, verdict, chk):
+    """C14 on the same sequences: every run of the prepared workflow that was not cancelled returns what the ISOLATED FIRST RUN
+    (fresh registry, fresh Prepare, one Execute) with that document returned - also after refused and cancelled runs and next
+    to overlapping ones; a cancelled run returns (an error or a declared output); a run that never returns differs from the
+    isolated run, which did."""
+    if case.get("kind") != "inputseq":
+        return
+    if case.get("crash"):
+        if _plugin_side(case["crash"]):
+            chk.hist["child:plugin-side-crash"] = chk.hist.get("child:plugin-side-crash", 0) + 1
+        else:
+            chk.violation("C14:process-crash", "re-running a prepared workflow with valid / invalid / cancelled inputs crashed the process: "
+                          + case["crash"][:300], {"kind": "impl-counterexample", "case": {k: case.get(k) for k in ("id", "child", "child_exit")},
+                                                  "stderr": case["crash"][:3000], "replay_harness": _seq_replay(case)["replay_harness"]})
+        return
+    docs = case.get("docs") or []
+    if case.get("hung"):
+        hr = case.get("hung_run") or {}
+        if hr.get("phase") != "isolated-first-run":
+            d = docs[hr.get("doc", 0)] if docs else {}
+            fresh = d.get("fresh") or {}
+            chk.violation("C14:run-never-returns-after-earlier-runs",
+                          "%s of a prepared workflow did not return within %s ms; the isolated first run with the same input returned (%r, error class %r) in %s ms; "
+                          "earlier runs of the prepared workflow: %s"
+                          % (_describe_run(case, hr), case.get("watchdog_ms"), fresh.get("output_id"), fresh.get("err_class"), fresh.get("wall_ms"),
+                             ", ".join(_earlier(case, hr)) or "none"), _seq_replay(case, hr.get("n")))
+    for run in case.get("runs") or []:
+        if run.get("hung"):
+            continue
+        d = docs[run["doc"]]
+        res, fresh = run.get("result") or {}, d.get("fresh") or {}
+        cancelled = run.get("cancel_after_ms", -1) >= 0
+        tag = "sequence-run:%s%s:%s" % ("overlap" if run.get("overlap") else "sequential", ":cancelled" if cancelled else "",
+                                         "error" if res.get("err_class") else "output")
+        chk.hist[tag] = chk.hist.get(tag, 0) + 1
+        if res.get("panic"):
+            chk.violation("C14:run-differs-from-isolated-run:sequence", "%s panicked: %s" % (_describe_run(case, run), str(res["panic"])[:200]),
+                          _seq_replay(case, run.get("n")))
+            continue
+        if cancelled:
+            continue  # returned: an error or an output (whose data is checked by C19's monitor)
+        same = (res.get("output_id") == fresh.get("output_id") and (res.get("err_class") or "") == (fresh.get("err_class") or "")
+                and canon(res.get("data")) == canon(fresh.get("data")))
+        if not same and not fresh.get("panic"):
+            chk.violation("C14:run-differs-from-isolated-run:sequence",
+                          "%s returned (%r, %s, error class %r); the isolated first run with the same input returned (%r, %s, error class %r); earlier runs: %s"
+                          % (_describe_run(case, run), res.get("output_id"), str(res.get("data"))[:120], res.get("err_class"),
+                             fresh.get("output_id"), str(fresh.get("data"))[:120], fresh.get("err_class"), ", ".join(_earlier(case, run)) or "none"),
+                          _seq_replay(case, run.get("n")))
+
+
+def nontrivial_seq(case):
+    """non-trivial = a sequence that contains refused and accepted runs (or a sub-line of it that is non-trivial by the
+    single-run rule)"""
+    if case.get("kind") == "input":
+        return nontrivial_input(case)
+    docs = case.get("docs") or []
+    kinds = {_doc_rejected(docs[r["doc"]]) for r in case.get("runs") or [] if r.get("doc", 0) < len(docs)}
+    return len(kinds) > 1
+
+
+def sample_seq(case):
+    if case.get("kind") == "input":
+        return sample_input(case)
+    docs = case.get("docs") or []
+    return {"id": case.get("id"), "workflow_yaml": case.get("yaml", "")[:1500],
+            "documents": [(d.get("role"), d.get("violation_kind"), d.get("doc")) for d in docs][:8],
+            "runs": [(r.get("phase"), r.get("doc"), r.get("cancel_after_ms"), (r.get("result") or {}).get("output_id"),
+                      (r.get("result") or {}).get("err_class"), r.get("deploys_settled")) for r in (case.get("runs") or [])[:40]]}
+
+
+def seq_n(tier):
+    return 150 if tier == "thorough" else 24
+
+
+def S_seq(monitor, driver, seed_off):
+    return {"name": "input-seq",
+            "harness": lambda t, s: ["inputseq", "-n", str(seq_n(t)), "-seed", str(s + seed_off), "-tier", t, "-child", "self"],
+            "driver": (lambda f: ["input"]) if driver else None,
+            "monitor": monitor, "nontrivial": nontrivial_seq, "sample": sample_seq}
+
+
 def nontrivial_input(case):
     """non-trivial = an invalid document, or a valid one that needs normalisation (a default is filled in, a scalar is
     given as text or in another type, an object is given in the inlined spelling)"""
@@ -318,6 +582,10 @@ SPEC_C19 = {
         T19 + "invalid_input_no_start", T19 + "valid_input_starts_every_step",
         T19 + "validation_before_start", T19 + "validation_guarded", T19 + "start_loop_present",
         T19 + "validation_before_start_spelled",
+        # a refused input leaves the prepared workflow usable: the input lock is released on every path of Execute (lock-balance
+        # checker on the regenerated skeleton, sound w.r.t. the path semantics of the skeleton language)
+        T19 + "input_lock_released_on_every_path", T19 + "input_lock_taken_once_in_execute", T19 + "every_lock_released",
+        "Arca.Proofs.LockBalance.balanced_sound",
     ],
     "pins": ["workflow_workflow_executableWorkflow_Execute"],
     "streams": [
@@ -327,6 +595,9 @@ SPEC_C19 = {
          "monitor": mon_c19_input,
          "nontrivial": nontrivial_input,
          "sample": sample_input},
+        # sequences of valid / invalid / cancelled runs on ONE prepared workflow, sequential and overlapping, every case in a child
+        # process; the sequential runs are also judged one by one by the model differential (lines of kind "input")
+        S_seq(mon_c19_seq, True, 7),
     ],
     "rule": ("generated input schemas (strings with length bounds / patterns, bounded integers, booleans, floats, lists with item "
              "bounds, string-keyed maps, nested objects up to depth 3 with required / optional / defaulted properties, objects "
@@ -334,7 +605,12 @@ SPEC_C19 = {
              "cross-typed, with omitted optional fields, inlined single-property objects, via the engine's YAML decoder) or "
              "invalid in exactly one way (missing required field, wrong type, out of range, overflow, pattern mismatch, too "
              "short / long, unknown field, too few / many items, null, default violating its type); distinct = workflow text + "
-             "document; non-trivial = invalid, or valid and in need of normalisation"),
+             "document; non-trivial = invalid, or valid and in need of normalisation; schema shapes also: a root object without "
+             "properties, a root whose properties are all optional; documents also: lists and scalars where an object is declared; "
+             "oracles for 'the schema rejects the document': the generator, the real pluginsdk schema on a fresh copy (input scope of a "
+             "fresh Prepare), the Lean model; stream input-seq: ONE prepared workflow run 15-35 times with a document of every violation "
+             "kind the schema admits, valid documents of different shapes and cancelled runs, sequentially and overlapping, every run "
+             "under a 12 s watchdog in a child process (a run that never returns is a violation with the sequence as replay)"),
 }
 
 
@@ -386,6 +662,14 @@ def mon_c14_rerun(case, verdict, chk):
                            "replay_harness": rh + ["-child", ".build/vharness-race"]})
         else:
             chk.hist["race:plugin-side:" + tops] = chk.hist.get("race:plugin-side:" + tops, 0) + 1
+    if case.get("unconfirmed"):
+        # runs that returned what no sampled isolated run returned, but a second execution of the case (fresh process, same seed)
+        # did not reproduce any such run: a rare ordering the oracle's sample missed, not a leak between runs - inconclusive
+        chk.hist["oracle:unconfirmed-mismatch(inconclusive)"] = chk.hist.get("oracle:unconfirmed-mismatch(inconclusive)", 0) + len(case["unconfirmed"])
+        note = "rerun: %d run(s) of %s differed from the sampled isolated runs and did not reproduce in a second execution (inconclusive)" % (
+            len(case["unconfirmed"]), case.get("id"))
+        if len([n for n in chk.notes if n.startswith("rerun: ") and "inconclusive" in n]) < 4:
+            chk.notes.append(note)
     if case.get("oracle_unstable"):
         chk.hist["oracle:several-isolated-results"] = chk.hist.get("oracle:several-isolated-results", 0) + 1
     for run in case.get("runs") or []:
@@ -447,6 +731,9 @@ SPEC_C14 = {
         T14 + "shared_fields_not_written", T14 + "dag_is_cloned", T14 + "shared_calls_enumerated", T14 + "frame_covers_run_loop",
         T14 + "clone_independent", T14 + "clone_clone", T14 + "run_starts_from_prepared",
         T14 + "execute_is_function_of_inputs", T14 + "later_run_unaffected",
+        # what a run acquires from the prepared workflow it gives back on every path (every function that calls Lock(), from the source)
+        T14 + "lock_balance_sound", T14 + "every_lock_released_on_every_path", T14 + "input_lock_balanced_in_execute",
+        T14 + "lock_facts_meaningful", T14 + "lock_facts_are_the_skeletons", T14 + "run_lock_exception_is_one_exit",
     ],
     "pins": ["workflow_workflow_executableWorkflow_Execute", "workflow_workflow_executableWorkflow_handleOutput",
              "workflow_executor_executor_prepareOptionalExprDependencies", "workflow_executor_executor_prepareOneOfExprDependencies"],
@@ -461,11 +748,17 @@ SPEC_C14 = {
          "harness": lambda t, s: ["rerun", "-n", str(80 if t == "thorough" else 12), "-seed", str(s + 31), "-tier", t,
                                   "-child", race_binary()],
          "driver": None, "monitor": mon_c14_rerun, "nontrivial": nontrivial_rerun, "sample": sample_rerun},
+        # generated input schemas: one prepared workflow run with valid, invalid (every kind) and cancelled inputs, sequentially and
+        # overlapping; the oracle of every run is the isolated first run with the same document
+        S_seq(mon_c14_seq, False, 7),
     ],
     "rule": ("one generated workflow (all generator options, scripted behaviours with zero or small delays) prepared once and run "
              "4-11 times in sequence with equal and different inputs (some cancelled after 0-5 ms, some ending in errors), then from "
              "2-8 goroutines at once, then interleaved and overlapped with a twin prepared from the same text on the same registry; "
              "every run is compared with isolated first runs (fresh registry, fresh Prepare) of the same input, overlapping runs with "
              "isolated runs that overlap in the same way; the race stream repeats this under the Go race detector; distinct = workflow "
-             "text + inputs + behaviours; non-trivial = the runs of the case do not all return the same thing"),
+             "text + inputs + behaviours; non-trivial = the runs of the case do not all return the same thing; two thirds of the cases "
+             "also run 1-2 documents the input schema refuses (a refused input between accepted ones); a run that does not return "
+             "within 25 s ends the case; stream input-seq (generated input schemas, see C19): every run that was not cancelled must "
+             "return what the isolated first run with the same document returned, also after refused and cancelled runs"),
 }
